@@ -18,6 +18,9 @@ type flowBuilder struct {
 	nodeBuilder        *graphNodeBuilder
 	processorManager   *processors.ProcessorManager
 	resourceManagement *resources.ResourceManagement
+	// flowsInProgress holds the flow being built and the chain of flows currently being
+	// incorporated into it; a flow reference back into this chain can never be resolved.
+	flowsInProgress map[string]struct{}
 }
 
 // newFlowBuilder creates a new instance of a flow builder.
@@ -31,6 +34,7 @@ func newFlowBuilder(filterTree internaltypes.FilterTreeI,
 		processorManager:   processorManager,
 		resourceManagement: resourceManagement,
 		flowReps:           flowReps,
+		flowsInProgress:    make(map[string]struct{}),
 	}
 
 	builder.nodeBuilder = newGraphNodeBuilder(builder.flowReps, builder.processorManager)
@@ -66,6 +70,8 @@ func (fb *flowBuilder) build() error {
 // buildFlow builds a flow based on the provided FlowRepresentation.
 func (fb *flowBuilder) buildFlow(flowRep internaltypes.FlowRepI) error {
 	log.Info().Msgf("Building flow %s", flowRep.GetName())
+
+	fb.flowsInProgress = map[string]struct{}{flowRep.GetName(): {}}
 
 	flow := NewFlow(fb.nodeBuilder, flowRep, fb.resourceManagement)
 
@@ -254,6 +260,14 @@ func (fb *flowBuilder) incorporateFlow(flowName string, targetFlowDir *FlowDirec
 	if !exists {
 		return fmt.Errorf("flow '%s' not found", flowName)
 	}
+
+	// a flow that (directly or through other flows) refers to itself would be incorporated
+	// into itself without end
+	if _, inProgress := fb.flowsInProgress[flowName]; inProgress {
+		return fmt.Errorf("circular flow reference detected - flow '%s'", flowName)
+	}
+	fb.flowsInProgress[flowName] = struct{}{}
+	defer delete(fb.flowsInProgress, flowName)
 
 	// build connections from the source flow and add all to target FlowDirection
 	connections := flowRep.GetFlow().GetFlowConnections(targetFlowDir.flowType)
